@@ -10,8 +10,15 @@
      reader  start        RBegin   call; RLock; [copy the map header; RUnlock]
              list.*.iter  RVisit   produce the next element (parks at list.*.step)
              list.*.step  RVisit   ... or finish: [RUnlock]; return the list
+             (returned)   RCount   a second call by the same caller: the count
+                                   (PlayerCount / Len), one atomic read under the read lock
      writer  start        WBegin   parks at w.enter
-             w.enter      WLock    Lock  (parks at the gate inside the critical section)
+             w.enter      WPrep    the part of the operation before the lock is asked for:
+                                   a leaving player's connection is closed here (it is
+                                   unregistered only later in its teardown), a joining one
+                                   passes canRegisterConnection / LoginEvent
+                                   (parks at reg.register.enter / reg.unregister.enter / w.mid)
+             *.enter      WLock    Lock  (parks at the gate inside the critical section)
              *.insert ..  WWrite   mutate; Unlock
 
    IterUnderLock = TRUE : the reader holds the read lock while it iterates (what the
@@ -77,15 +84,24 @@ RVisit(r) == /\ pc[r] = "iter"
                      /\ UNCHANGED rl
                 \/ /\ \A k \in M \ visited[r] : \E s \in hist[r] : k \notin s  \* only late additions may be skipped
                    /\ rl' = rl \ {r}
-                   /\ Go(r, "done")
+                   /\ Go(r, "count")
                    /\ UNCHANGED visited
              /\ UNCHANGED <<M, m0, wprog, wl, hist>>
+
+RCount(r) == /\ pc[r] = "count"
+             /\ ~Locked \/ wl = "none"
+             /\ Go(r, "done")
+             /\ UNCHANGED <<M, m0, wprog, wl, rl, visited, hist>>
 
 WBegin(w) == /\ pc[w] = "start"
              /\ Go(w, "enter")
              /\ UNCHANGED <<M, m0, wprog, wl, rl, visited, hist>>
 
-WLock(w) == /\ pc[w] = "enter"
+WPrep(w) == /\ pc[w] = "enter"
+            /\ Go(w, "mid")
+            /\ UNCHANGED <<M, m0, wprog, wl, rl, visited, hist>>
+
+WLock(w) == /\ pc[w] = "mid"
             /\ ~Locked \/ (wl = "none" /\ rl = {})
             /\ wl' = IF Locked THEN w ELSE wl
             /\ Go(w, "locked")
@@ -101,8 +117,8 @@ WWrite(w) == /\ pc[w] = "locked"
 
 Quiescent == \A t \in Threads : pc[t] = "done"
 
-Next == \/ \E r \in Readers : RBegin(r) \/ RVisit(r)
-        \/ \E w \in Writers : WBegin(w) \/ WLock(w) \/ WWrite(w)
+Next == \/ \E r \in Readers : RBegin(r) \/ RVisit(r) \/ RCount(r)
+        \/ \E w \in Writers : WBegin(w) \/ WPrep(w) \/ WLock(w) \/ WWrite(w)
         \/ (Quiescent /\ UNCHANGED vars)
 
 Spec == Init /\ [][Next]_vars
@@ -114,7 +130,7 @@ Spec == Init /\ [][Next]_vars
 NoIterWriteOverlap == \A r \in Readers, w \in Writers : ~(pc[r] = "iter" /\ pc[w] = "locked")
 
 \* the returned list is the map's value at one instant between call and return
-SnapshotAtomic == \A r \in Readers : pc[r] = "done" => visited[r] \in hist[r]
+SnapshotAtomic == \A r \in Readers : pc[r] \in {"count", "done"} => visited[r] \in hist[r]
 
 NoHang == Quiescent \/ ENABLED Next
 
